@@ -9,11 +9,10 @@
 
    i.e. whenever a constructor returns an object, every element of .data is (derived from) a member of the group.
    Before the fixes 8457767 (isR), f16dbda (list path), 21d6c6d (UnitQuaternion N x 4), c16e6a7 (transl2) it was refuted four
-   times.  ONE hole is still open: UnitQuaternion(ndarray 4x4) -- a 4x4 array that fails ishom (reflected or non-orthonormal
-   rotation block, corrupted last row) is not rejected but read as four quaternion rows and normalised.  The elements held
-   are unit quaternions, but the invalid homogeneous matrix was accepted without an exception, so under provenance validity
-   the full statement is still false there: _refuted witness + _partial whose guard excludes exactly that cell; the full
-   statement is proved for every other class and for every list / tuple argument. *)
+   times; it is now proved at full strength for every class and every argument form (C07_ctor_sound), with no guard.
+   UnitQuaternion(ndarray 4x4) is modelled explicitly: a 4x4 that passes ishom gives ONE quaternion (from its rotation
+   block); any other 4x4 array is the documented N x 4 form with N = 4: four quaternion rows, normalised; an N x 4 array
+   with a (near-)zero row is rejected with ValueError (C07_ctor_uq_4x4, C07_ctor_uq_stack). *)
 From Coq Require Import List Bool Arith Lia.
 Import ListNotations.
 From SM Require Import Model.C07_Ctor.
@@ -30,30 +29,24 @@ Proof. induction n; simpl; constructor; auto. Qed.
 Lemma not_all_valid_none d1 d2 : ~ all_valid (d1 ++ NoneElt :: d2).
 Proof. intros H. apply Forall_app in H. destruct H as [_ H]. inversion H; subst. discriminate. Qed.
 
-(* ------------------------------------------------------------------ the remaining hole *)
-Theorem C07_ctor_sound_refuted_uq_4x4 : exists a d, wf cUQ a = true /\ ctor cUQ a = Ok d /\ ~ all_valid d /\ length d = 4.
-Proof.
-  exists (Bare (Arr (Sq 4) BadRow)), (repeat (Conv (Arr (Sq 4) BadRow)) 4). repeat split.
-  intros H. inversion H; subst. discriminate.
-Qed.
-Print Assumptions C07_ctor_sound_refuted_uq_4x4.
-(* universally: every 4x4 that ishom rejects is taken as four rows *)
-Theorem C07_ctor_uq_4x4_read_as_rows : forall t, hom_ok t = false ->
-  ctor cUQ (Bare (Arr (Sq 4) t)) = Ok (repeat (Conv (Arr (Sq 4) t)) 4).
-Proof. intros t H. destruct t; try discriminate; reflexivity. Qed.
-Print Assumptions C07_ctor_uq_4x4_read_as_rows.
-Example C07_ctor_uq_4x4_nonvacuous : hom_ok Reflect = false /\ hom_ok NotOrtho = false /\ hom_ok BadRow = false.
-Proof. repeat split. Qed.
+(* ------------------------------------------------------------------ UnitQuaternion(N x 4 array), N = 4 included *)
+Theorem C07_ctor_uq_4x4 :
+  ctor cUQ (Bare (Arr (Sq 4) Valid)) = Ok [Conv (Arr (Sq 4) Valid)] /\
+  (forall t, hom_ok t = false -> t <> ZeroRow -> ctor cUQ (Bare (Arr (Sq 4) t)) = Ok (repeat Made 4)) /\
+  ctor cUQ (Bare (Arr (Sq 4) ZeroRow)) = Err ValueError.
+Proof. repeat split. intros t H Hz. destruct t; try discriminate; try reflexivity. contradiction. Qed.
+Print Assumptions C07_ctor_uq_4x4.
+Theorem C07_ctor_uq_stack : forall r t, r <> 4 ->
+  ctor cUQ (Bare (Arr (Rect r 4) t)) = if tag_eqb t ZeroRow then Err ValueError else Ok (repeat Made r).
+Proof. intros r t H. nat7 r; try reflexivity; contradiction. Qed.
+Print Assumptions C07_ctor_uq_stack.
 
 (* ------------------------------------------------------------------ all outcomes of the bare-ndarray path *)
-Definition uq_hole (it : item) : bool :=
-  let '(Arr s t) := it in match dims s with [4; 4] => negb (hom_ok t) | _ => false end.
 Inductive bare_outcome (c : cls) (it : item) : result (list slot) -> Prop :=
 | bo_acc : accept c it = true -> bare_outcome c it (Ok [stored c it])
 | bo_err : forall e, accept c it = false -> bare_outcome c it (Err e)
 | bo_made : forall n, accept c it = false -> bare_outcome c it (Ok (repeat Made n))
-| bo_conv : c = cUQ -> rot_ok (itag it) = true -> bare_outcome c it (Ok [Conv it])
-| bo_rows : c = cUQ -> uq_hole it = true -> bare_outcome c it (Ok (repeat (Conv it) 4)).
+| bo_conv : c = cUQ -> rot_ok (itag it) = true -> bare_outcome c it (Ok [Conv it]).
 Lemma bare_outcome_spec : forall c it, bare_outcome c it (ctor c (Bare it)).
 Proof.
   intros c [s t]. unfold ctor. destruct (accept c (Arr s t)) eqn:Ea; [apply bo_acc; exact Ea|].
@@ -62,16 +55,9 @@ Proof.
   - (* SE2 *) shape_cases s; cbn; try (apply bo_err; exact Ea); try (apply (bo_made _ _ 1); exact Ea).
   - (* SE3 *) cbn [fallthrough]. destruct (is_vec s 3); [apply (bo_made _ _ 1); exact Ea|].
     shape_cases s; cbn -[repeat]; try (apply bo_err; exact Ea); try (apply bo_made; exact Ea).
-  - (* UQ *) shape_cases s; cbn -[repeat]; try (apply bo_err; exact Ea); try (apply bo_made; exact Ea);
-      destruct t; cbn -[repeat]; try (apply bo_err; exact Ea); try (apply bo_conv; reflexivity); try (apply (bo_rows _ _ eq_refl); reflexivity).
+  - (* UQ *) shape_cases s; cbn -[repeat]; try (apply bo_err; exact Ea);
+      destruct t; cbn -[repeat]; try (apply bo_err; exact Ea); try (apply bo_made; exact Ea); try (apply bo_conv; reflexivity).
 Qed.
-
-(* the guard excludes exactly the open hole: UnitQuaternion given a 4x4 array that fails ishom *)
-Definition guard (c : cls) (a : argform) : bool :=
-  match a with
-  | Seq _ => true
-  | Bare it => match c with cUQ => negb (uq_hole it) | _ => true end
-  end.
 
 Lemma accept_valid : forall c it, accept c it = true -> applicable c it = true -> valid_slot (stored c it) = true.
 Proof.
@@ -107,27 +93,22 @@ Example C07_ctor_sound_seq_nonvacuous :
   wf cTw3 (Seq [Arr (Vec 6) Valid; Arr (Sq 4) Valid]) = true /\ (exists d, ctor cTw3 (Seq [Arr (Vec 6) Valid; Arr (Sq 4) Valid]) = Ok d).
 Proof. repeat split; eexists; reflexivity. Qed.
 
-(* FULL statement for every class but UnitQuaternion; UnitQuaternion under the guard *)
-Theorem C07_ctor_sound_partial : forall c a d, wf c a = true -> guard c a = true -> ctor c a = Ok d -> all_valid d.
+(* THE FULL STATEMENT: every class, every argument form, no guard *)
+Theorem C07_ctor_sound : forall c a d, wf c a = true -> ctor c a = Ok d -> all_valid d.
 Proof.
-  intros c a d Hwf Hg Hc. destruct a as [it|l]; [|eapply C07_ctor_sound_seq; eassumption].
+  intros c a d Hwf Hc. destruct a as [it|l]; [|eapply C07_ctor_sound_seq; eassumption].
   pose proof (bare_outcome_spec c it) as B. rewrite Hc in B. cbn in Hwf. apply andb_true_iff in Hwf. destruct Hwf as [_ Hp].
   inversion B; subst.
   - constructor; [|constructor]. apply accept_valid; auto.
   - apply all_valid_repeat_made.
   - constructor; [|constructor]. cbn. destruct it as [s t]. cbn in *. destruct t; try discriminate; reflexivity.
-  - cbn in Hg. rewrite H1 in Hg. discriminate.
-Qed.
-Print Assumptions C07_ctor_sound_partial.
-Theorem C07_ctor_sound : forall c a d, c <> cUQ -> wf c a = true -> ctor c a = Ok d -> all_valid d.
-Proof.
-  intros c a d Hc Hwf. apply C07_ctor_sound_partial; [exact Hwf|]. destruct a; [|reflexivity]. destruct c; try reflexivity. contradiction.
 Qed.
 Print Assumptions C07_ctor_sound.
 Example C07_ctor_sound_nonvacuous :
   wf cSE3 (Bare (Arr (Sq 4) Valid)) = true /\ (exists d, ctor cSE3 (Bare (Arr (Sq 4) Valid)) = Ok d) /\
-  wf cUQ (Bare (Arr (Rect 3 4) AltForm)) = true /\ guard cUQ (Bare (Arr (Rect 3 4) AltForm)) = true /\
-  (exists d, ctor cUQ (Bare (Arr (Rect 3 4) AltForm)) = Ok d).
+  wf cUQ (Bare (Arr (Rect 3 4) AltForm)) = true /\ (exists d, ctor cUQ (Bare (Arr (Rect 3 4) AltForm)) = Ok d) /\
+  wf cUQ (Bare (Arr (Sq 4) AltForm)) = true /\ (exists d, ctor cUQ (Bare (Arr (Sq 4) AltForm)) = Ok d) /\
+  wf cUQ (Bare (Arr (Sq 4) Valid)) = true /\ (exists d, ctor cUQ (Bare (Arr (Sq 4) Valid)) = Ok d).
 Proof. repeat split; eexists; reflexivity. Qed.
 
 (* ------------------------------------------------------------------ rejection, universally *)
@@ -157,7 +138,6 @@ Proof.
     + apply (S c [it]).
     + apply Rp; discriminate.
     + apply (Rp (Conv it) 1); discriminate.
-    + apply (Rp (Conv it) 4); discriminate.
   - destruct l as [|h l]; [discriminate|]. unfold ctor in Hc. set (L := h :: l) in *. clearbody L.
     assert (K : forall e, (if forallb (accept c) L then Ok (map (stored c) L) else Err e) = Ok d -> ~ In NoneElt d /\ ~ In NormFloat d).
     { intros e. destruct (forallb (accept c) L); [|discriminate]. intros H. injection H as <-. apply S. }
@@ -180,11 +160,6 @@ Proof.
     try (intros k; destruct k as [|[|k]]; eexists; reflexivity).
 Qed.
 Print Assumptions C07_ctor_bare_rejects.
-(* UnitQuaternion(ndarray N x 4), N <> 4: the N normalised rows (fix 21d6c6d; it stored N floats) *)
-Theorem C07_ctor_uq_stack : forall r t, r <> 4 -> ctor cUQ (Bare (Arr (Rect r 4) t)) = Ok (repeat Made r).
-Proof. intros r t H. nat7 r; try reflexivity; contradiction. Qed.
-Print Assumptions C07_ctor_uq_stack.
-
 (* ------------------------------------------------------------------ completeness: members are taken, bare or in a list of any length, in order *)
 Theorem C07_ctor_accepts_members :
   accept cSO2 (Arr (Sq 2) Valid) = true /\ accept cSE2 (Arr (Sq 3) Valid) = true /\ accept cSO3 (Arr (Sq 3) Valid) = true /\
